@@ -61,6 +61,9 @@ def rnd_sval(rng, depth=3, keys_ok=True):
         return "s:" + hx(rng.choice(NAMES))
     sub = lambda: rnd_sval(rng, depth - 1, keys_ok)
     k = rng.randrange(10)
+    if rng.random() < 0.06:
+        # a value whose Serialize impl consults `is_human_readable()` (std::net::IpAddr, uuid, chrono …): JSON is human readable
+        return f"( hr {sub()} {sub()} )"
     if k == 0:
         return f"( some {sub()} )"
     if k == 1:
@@ -85,6 +88,40 @@ def rnd_sval(rng, depth=3, keys_ok=True):
     if k == 8:
         return f"( struct {hx('S')} " + " ".join(hx(rng.choice(NAMES)) + " " + sub() for _ in range(n)) + " )"
     return f"( svar {hx('E')} 3 {hx(rng.choice(NAMES))} " + " ".join(hx(rng.choice(NAMES)) + " " + sub() for _ in range(n)) + " )"
+
+
+def _end(toks, i):
+    if toks[i] != "(":
+        return i + 1
+    d = 0
+    while True:
+        if toks[i] == "(":
+            d += 1
+        elif toks[i] == ")":
+            d -= 1
+            if d == 0:
+                return i + 1
+        i += 1
+
+
+def _resolve(toks):
+    out, i = [], 0
+    while i < len(toks):
+        if toks[i] == "(" and i + 1 < len(toks) and toks[i + 1] == "hr":
+            j = _end(toks, i + 2)
+            k = _end(toks, j)
+            out += _resolve(toks[i + 2:j])
+            i = k + 1
+        else:
+            out.append(toks[i])
+            i += 1
+    return out
+
+
+def resolve_hr(case):
+    if not case.startswith("ser\t") or "( hr " not in case:
+        return case
+    return "ser\t" + " ".join(_resolve(case[4:].split(" ")))
 
 
 # shapes mirrored from notes/serde-protocol.md -------------------------------------------------
@@ -240,7 +277,9 @@ def run(ctx):
             cases.append("de\t%d\t%s" % (ti, v))
     if getattr(ctx, "replay", None):
         cases = [ctx.replay["case"]]
-    impl, model = S.run_both(ctx, "serde", cases)
+    impl = C.run_parallel([ctx.harness, "serde"], cases)
+    # the model has no `hr` node: for it (as for serde_json) the human-readable form is THE value
+    model = C.run_parallel([ctx.driver, "serde"], [resolve_hr(c) for c in cases], idle_timeout=60.0)
     st = dict(ser=0, ser_ok=0, ser_nonstring_keys=0, de=0, de_ok=0, de_err=0, types_hit=set())
     for c, i, m in zip(cases, impl, model):
         ctx.evaluations += 1
@@ -252,8 +291,8 @@ def run(ctx):
             continue
         if kind == "ser":
             st["ser"] += 1
-            nonstr = f["json"] != "ERR" and f["var"] == "ERR" or (f["json"] != f["var"] and has_nonstring_key(c))
-            if has_nonstring_key(c):
+            nonstr = f["json"] != "ERR" and f["var"] == "ERR" or (f["json"] != f["var"] and has_nonstring_key(resolve_hr(c)))
+            if has_nonstring_key(resolve_hr(c)):
                 st["ser_nonstring_keys"] += 1
             elif f["var"] != f["json"]:
                 ctx.violation("serde", c, "from_serializable: " + f["var"][:200], "serde_json::to_value: " + f["json"][:200],
@@ -275,7 +314,7 @@ def run(ctx):
             else:
                 st["de_err"] += 1
         fm = S.kv_fields(m.split("\t"))
-        if kind == "ser" and has_nonstring_key(c):
+        if kind == "ser" and has_nonstring_key(resolve_hr(c)):
             # serde_json's stringification of non-string keys is outside the property and outside the repository: library side only
             same = f.get("var") == fm.get("var")
         else:
